@@ -692,3 +692,23 @@ func alwaysErrors(f *types.Func, depth int) bool {
 	})
 	return n > 0 && all
 }
+
+// ContainsAssign reports whether the node contains an assignment or an increment/decrement whose
+// target is not a plain local identifier (a store into memory), or a composite literal.
+func ContainsAssign(n ast.Node) bool {
+	found := false
+	ast.Inspect(n, func(m ast.Node) bool {
+		switch s := m.(type) {
+		case *ast.AssignStmt:
+			for _, l := range s.Lhs {
+				if _, isIdent := Unparen(l).(*ast.Ident); !isIdent {
+					found = true
+				}
+			}
+		case *ast.CompositeLit:
+			found = true
+		}
+		return !found
+	})
+	return found
+}
